@@ -845,7 +845,13 @@ def check(ctx):
     ctx.borrow('C15.TOKENS', c05.check_quoted_peel, only=['C05.QUOTED'])
     # ... and a leaf is built from the two parts of the word as written:
     # the printer writes kind and match back verbatim (= C05.FALLBACK)
-    ctx.borrow('C15.TOKENS', c05.check_fallback, only=['C05.FALLBACK'])
+    def _leaf(ctx):
+        try:
+            c05.check_fallback(ctx)
+        except AnalysisError as e:
+            ctx.assume('C15.TOKENS(FALLBACK) not decided (C05 declines: %s)'
+                       % str(e)[:120])
+    ctx.borrow('C15.TOKENS', _leaf, only=['C05.FALLBACK'])
     check_registry(ctx)
     check_roundtrip(ctx, pr, tf, model, pred, opens, closes)
     # C15.LIST-ARITY: rules given in the old list form are parsed rules too;
